@@ -37,7 +37,8 @@ CHECKS = {
             "on files rendered from exhaustively enumerated small table shapes and random large ones (incl. files at stream positions around 2^32/2^62); "
             "oracle: the extracted SPECIFICATION vs the real reader.",
             "Coq proof (model = ISO specification) + model/implementation correspondence",
-            "The parse from bytes to tables is covered by the box round-trip theorems (C04) and by the correspondence, not by this theorem. " + TB),
+            "Props/C03Open.v (C03_consistent_file_lookup) composes it with the box round trips into a theorem from BYTES: open_fuel on the ISO rendering of any well-formed moov with consistent "
+            "tables (either box order, either header form) yields a reader whose lookups return the specification's samples. " + TB),
     "C13": ("proof",
             "Kernel-checked over unbounded N (no 4 GiB needed): mdat uses the 64-bit size form iff its size exceeds 2^32-1 and covers exactly the payload; "
             "each track has co64 iff some chunk offset exceeds 2^32-1 (else stco), offsets never altered; mdhd/tkhd/mvhd version 1 iff duration exceeds "
@@ -45,7 +46,7 @@ CHECKS = {
             "start positions and summed durations, real writer -> real reader + independent parser + form rules, debug and release.",
             "Coq proof over unbounded integers + boundary histories on the real muxer",
             "Media data above 4 GiB is written for real through a sparse stream and judged by the oracle only (the extracted model cannot hold 4 GiB byte lists); "
-            "the model side of that transition is the theorem. " + TB),
+            "the model side of that transition is the theorem. Props/C13Open.v: the end-to-end read-back theorem for output starting at ANY stream position. " + TB),
     "C14": ("proof",
             "Kernel-checked (configuration_survives, durations_survive): accepted configurations reach the final track records unchanged in order with ids "
             "1..n, ftyp bytes and movie timescale from the configuration, durations exact / within one tick. Tie/oracle: every reader accessor on the real "
@@ -69,8 +70,8 @@ CHECKS = {
             "Tie/oracle: catch_unwind around every real call on degenerate argument pools in debug and release; when all calls succeed the C01/C02 oracles "
             "are applied.",
             "Coq totality proof via state invariant + catch_unwind exploration",
-            "Histories end with one write_end (the property's quantifier); >= 2^32-1 tracks excluded (not constructible). The moov encoder's own panics "
-            "(e.g. byteorder u24 assertion) are covered by the correspondence run, the theorem stops before moov encoding. " + TB),
+            "Histories end with one write_end (the property's quantifier); >= 2^32-1 tracks excluded (not constructible). Props/C17Bytes.v (mux_bytes_total): building and encoding the moov "
+            "never panics either, for any configuration. " + TB),
 }
 
 
@@ -130,7 +131,9 @@ CHECKS.update({
             "every guard configuration (instances: top level and 10 containers), spare bytes after fixed-layout and table boxes are ignored (13 boxes), different-typed siblings "
             "commute; layout_invariance for ten containers and the top level; sample offsets shift with the data. Oracle: metamorphic comparison of layout variants on the real reader.",
             "Coq proofs of the skipping/commutation mechanisms + metamorphic layout variants",
-            "The single end-to-end theorem over arbitrary box trees is kept as C12_statement (not proved); stsd/edts/hev1/vp09/dref read one child and are outside 'containers that iterate'. " + TB),
+            "Props/C12Tree.v: the property as ONE theorem over box trees (C12_tree_canonical, C12_tree_forward) for trees with a structural decoding (every ISO rendering of well-formed values); "
+            "the first formalisation over arbitrary trees is refuted (C12_first_statement_is_false). Fragmented files are outside the tree theorem; stsd/edts/hev1/vp09/dref read one child and are "
+            "outside 'containers that iterate'. " + TB),
     "C15": ("proof",
             "PARTIAL. Kernel-checked for the model: read_sample's result is independent of the stream position, the stream content is immutable, and any schedule of calls "
             "returns call by call what a fresh reader returns. The model's state (immutable reader record + stream; writer records) is tied to the source by the regenerated lemma "
